@@ -3129,15 +3129,19 @@ fn convert_tag_expr<'a>(pair: Pair<'a, Rule>, input: &'a str) -> Result<ast::Typ
               })?;
               tag_constraint = Some(TagConstraint::Literal(val));
             }
-            Rule::type_expr => {
+            Rule::tag_type => {
               tag_constraint = Some(TagConstraint::Type(tv.as_str()));
             }
             _ => {}
           }
         }
       }
-      Rule::type_expr => {
-        type_expr = Some(convert_type_expr(inner, input)?);
+      Rule::tag_inner => {
+        for ti in inner.into_inner() {
+          if ti.as_rule() == Rule::type_expr {
+            type_expr = Some(convert_type_expr(ti, input)?);
+          }
+        }
       }
       _ => {}
     }
